@@ -147,6 +147,46 @@ def judge_record_shape(S: Any, extra: Any, tag: str, stream_id: Any = None) -> N
         S.oblige(f"O2.{tag}.cancelled_is_the_constant_true", extra["cancelled"] is True, kind="post")
 
 
+def _consts(t: Any) -> set[str]:
+    out: set[str] = set()
+    seen: set[int] = set()
+    stack = [t]
+    while stack:
+        x = stack.pop()
+        if x.get_id() in seen:
+            continue
+        seen.add(x.get_id())
+        if z3.is_const(x) and x.decl().kind() == z3.Z3_OP_UNINTERPRETED:
+            out.add(x.decl().name())
+        stack.extend(x.children())
+    return out
+
+
+def oblige_local(S: Any, name: str, goal: Any, **meta: Any) -> None:
+    """State `goal` under only those conjuncts of the path condition that speak about the goal's own variables
+    (a subset of the hypotheses: stronger than under the whole path condition), and therefore only once per
+    distinct (hypotheses, goal) of the exploration — the same message term reaches the record on hundreds of
+    paths, and a solver run per path would decide the same string query again and again."""
+    from pyvc.values import boolterm
+
+    t = boolterm(goal)
+    if z3.is_true(z3.simplify(t)):
+        S.oblige(name, goal, **meta)
+        return
+    mine = _consts(t)
+    hyps = [c for c in S.pc if not z3.is_true(c) and _consts(c) and _consts(c) <= mine]
+    seen = S.explorer.__dict__.setdefault("_c34_local_goals", set())
+    key = name + "|" + t.sexpr() + "|" + "&".join(sorted(h.sexpr() for h in hyps))
+    if key in seen:
+        return
+    seen.add(key)
+    pc, S.pc = S.pc, hyps
+    try:
+        S.oblige(name, goal, **meta)
+    finally:
+        S.pc = pc
+
+
 def judge_message(S: Any, extra: Any, exc: Any, tag: str) -> None:
     """O4: error_message is the full server-side message str(exc) (a placeholder only when that text is empty)."""
     text = exc_text(S, exc)
@@ -159,7 +199,7 @@ def judge_message(S: Any, extra: Any, exc: Any, tag: str) -> None:
             goal = eq(got, text) if text else True
     else:
         goal = Implies(nonempty(text), eq(got, text))
-    S.oblige(f"O4.{tag}.error_message_is_the_full_server_side_message", goal, kind="post", witness="truncated")
+    oblige_local(S, f"O4.{tag}.error_message_is_the_full_server_side_message", goal, kind="post", witness="truncated")
     S.oblige(f"O4.{tag}.error_type_is_the_exception_class_name", eq(extra["error_type"], exc_class(exc).__name__), kind="post")
 
 
@@ -186,6 +226,8 @@ def _capture_access_records():
 
         lg = logging.getLogger("vgi_rpc.access")
         root = logging.getLogger("vgi_rpc")
+        fal = logging.getLogger("falcon")
+        fal_disabled, fal.disabled = fal.disabled, True  # falcon prints a traceback for every escaped exception
         old = (lg.level, lg.propagate, lg.disabled, root.disabled)
         h = Hd()
         lg.addHandler(h)
@@ -198,6 +240,7 @@ def _capture_access_records():
             lg.removeHandler(h)
             lg.setLevel(old[0])
             lg.propagate, lg.disabled, root.disabled = old[1], old[2], old[3]
+            fal.disabled = fal_disabled
 
     return cm()
 
@@ -931,9 +974,13 @@ def native_http_stream(scenario: str, text: str = "boom") -> dict[str, Any]:
     from vgi_rpc.http._testing import make_sync_client
     from vgi_rpc.rpc import RpcServer
 
+    import contextlib
+    import io
+
     _NATIVE_RAN.clear()
     seen: dict[str, Any] = {"client": []}
-    with _capture_access_records() as recs:
+    # falcon writes a traceback to wsgi.errors (stderr) for every exception that escapes a responder
+    with contextlib.redirect_stderr(io.StringIO()), _capture_access_records() as recs:
         client = make_sync_client(RpcServer(_NProto, _NImpl(), server_id="srv1"), token_key=b"k" * 32)
         with http_connect(_NProto, client=client) as c:
             try:
@@ -1003,6 +1050,7 @@ RESULT_MODES = ["stream", "raises", "not_a_stream", "header_missing"]
     max_paths=20000,
 )
 def http_stream_init(S):
+    S.syntactic_pruning = True  # byte counts / caps are unconstrained integers: every fork on them is feasible, no solver call needed to know it
     W = Http(S, hook_modes=3)
     H = S.handlers
     install_producer_loop(S)
@@ -1361,3 +1409,88 @@ def emit_alone(S):
         S.oblige("O4.emit.cancelled_key_iff_cancelled", ("cancelled" in extra) == cancelled and (not cancelled or extra["cancelled"] is True), kind="post")
     if status == "error" and not cancelled and not use_sink and mtype == "unary":
         S.canary("O2.canary.emit_never_writes_error_message", SBool(z3.BoolVal(all("error_message" not in r for r in recs))))
+
+
+# =========================================================================================
+# E2  _truncate_error_message: the rendering every HTTP shell uses
+# =========================================================================================
+
+
+def replay_truncate(inputs, ob):
+    n = 700
+    got = srv._truncate_error_message(ValueError("m" * n))
+    return ReplayResult(got != "m" * n, f"_truncate_error_message(ValueError('m'*{n})) returned {len(got)} characters")
+
+
+@unit(
+    "C34.E2 _truncate_error_message: '' for no exception, otherwise str(exc) in full (symbolic text and a concrete 700-character witness)",
+    targets=["vgi_rpc/rpc/_server.py::_truncate_error_message"],
+    replay=replay_truncate,
+    min_obligations=3,
+)
+def truncate(S):
+    k = S.choose(3)
+    if k == 0:
+        out = S.outcome(srv._truncate_error_message, None)
+        S.oblige("O4.render.no_exception_renders_empty", out.returned and out.value == "", kind="post")
+        return
+    text = "m" * 700 if k == 1 else S.str("text")
+    out = S.outcome(srv._truncate_error_message, SExc(ValueError, (text,)))
+    S.oblige("O4.render.returns", out.returned, kind="raises")
+    if out.returned:
+        S.oblige("O4.render.error_message_is_the_full_server_side_message", eq(out.value, text), kind="post", witness=("truncated_700" if k == 1 else "truncated"))
+        if k == 1:
+            S.canary("O4.canary.render_returns_empty", SBool(z3.BoolVal(out.value == "")))
+
+
+# =========================================================================================
+# bounded stand-in: whole records of native runs against the published JSON schema
+# =========================================================================================
+
+
+@bounded(
+    "B1.native_records_validate_against_access_log_schema",
+    bound="records produced by 14 native scenarios (pipe and HTTP: unary ok/error with empty, long, multi-line text; producer, exchange, cancel, failing turn, init failure, client vanishing, misbehaving init) validated with jsonschema against vgi_rpc/access_log.schema.json",
+    tiers=("quick", "thorough"),
+)
+def native_schema(tier, seed):
+    failures: list[str] = []
+    n = 0
+
+    def check(label: str, recs: list[dict[str, Any]], want: int | None, statuses: list[str] | None = None) -> None:
+        nonlocal n
+        n += 1
+        if want is not None and len(recs) != want:
+            failures.append(f"{label}: {len(recs)} records, expected {want}")
+        if statuses is not None and sorted(r["status"] for r in recs) != sorted(statuses):
+            failures.append(f"{label}: statuses {[r['status'] for r in recs]}, expected {statuses}")
+        for r in recs:
+            e = schema_errors(r)
+            if e:
+                failures.append(f"{label}: record {r.get('method')}/{r.get('status')} invalid: {e}")
+        ids = {r.get("stream_id") for r in recs if r.get("method_type") == "stream"}
+        if len(ids) > 1:
+            failures.append(f"{label}: records of one stream carry {len(ids)} stream ids")
+
+    texts = ["", "short", "L" * 1500, "line1\nline2\n\ttabbed é中"]
+    for t in ("pipe", "http"):
+        for text in texts:
+            obs = native_unary(t, text)
+            check(f"{t} unary ValueError(len {len(text)})", obs["records"], 1, ["error"])
+            for r in obs["records"]:
+                if text and r.get("error_message") != text:
+                    failures.append(f"{t} unary: error_message {len(r.get('error_message', ''))} chars of {len(text)}")
+    check("pipe producer", native_pipe_stream("run")["records"], 1, ["ok"])
+    c = native_pipe_stream("cancel")["records"]
+    check("pipe producer cancelled", c, 1)
+    if not all(r.get("cancelled") for r in c):
+        failures.append("pipe cancel: cancelled flag missing")
+    check("pipe client vanished after init", native_pipe_stream("vanish")["records"], 1, ["error"])
+    check("http producer", native_http_stream("producer")["records"], None)
+    check("http producer failing turn", native_http_stream("producer_fails", "")["records"], None)
+    check("http exchange", native_http_stream("exchange")["records"], 3, ["ok", "ok", "ok"])
+    check("http exchange failing turn", native_http_stream("exchange_fails", "E" * 900)["records"], 3, ["ok", "ok", "error"])
+    check("http init raising", native_http_stream("init_raises", "")["records"], 1, ["error"])
+    check("http init returning a non-Stream", native_http_stream("junk")["records"], 1, ["error"])
+    check("http init without the declared header", native_http_stream("nohdr")["records"], 1, ["error"])
+    return BoundedResult(evaluations=n, failures=failures, detail=f"{n} native scenarios, every record validated with jsonschema")
